@@ -269,15 +269,57 @@ fn g_concrete(src: &mut Src, obs: &mut Obs) -> CaseResult {
     Ok(())
 }
 
+/// lengths at which the CBOR head of a byte / text string changes width
+const WIDTH_LENS: [usize; 8] = [22, 23, 24, 25, 254, 255, 256, 257];
+
+/// A variable-length member sits exactly on a head-width boundary (23/24, 255/256 bytes) while the
+/// capacity is the message size -2..+2: a size computed ahead of encoding, rather than found by
+/// encoding, goes wrong exactly there.
+/// words: [kind, member selector, length index, offset (0..5), prior state (0..3), response...]
+fn g_width(src: &mut Src, obs: &mut Obs) -> CaseResult {
+    let kind = KINDS[src.below(KINDS.len())];
+    let members = stretch_members(kind);
+    let msel = src.below(members.len().max(1));
+    let len = WIDTH_LENS[src.below(WIDTH_LENS.len())];
+    let off = src.below(5) as i64 - 2;
+    let prior_kind = src.below(3);
+    let mut info = RInfo::default();
+    let mut model = gen_response(kind, src, &mut info);
+    obs.label("width");
+    if let Some((path, cap)) = members.get(msel) {
+        if len <= *cap {
+            if let Some(node) = mutate::get_mut(&mut model, path) {
+                let done = match node {
+                    Value::Bytes(b) => {
+                        b.resize(len, 0x5A);
+                        true
+                    }
+                    Value::Text(t) => {
+                        *t = vec![b'w'; len];
+                        true
+                    }
+                    _ => false,
+                };
+                if done {
+                    obs.labelf(format!("width:len{}", len));
+                    obs.labelf(format!("width:{}", kind.name()));
+                }
+            }
+        }
+    }
+    check_fit(kind, &model, off, prior_kind, false, src, obs)
+}
+pub const G_WIDTH: Gen = Gen { name: "c17_width", f: g_width };
+
 pub const G_FIT: Gen = Gen { name: "c17_fit", f: g_fit };
 pub const G_CONCRETE: Gen = Gen { name: "c17_concrete", f: g_concrete };
 pub const G_MAX: Gen = Gen { name: "c17_max", f: g_max };
 
 pub fn gens() -> Vec<Gen> {
-    vec![G_FIT, G_CONCRETE, G_MAX]
+    vec![G_FIT, G_CONCRETE, G_MAX, G_WIDTH]
 }
 
-pub const RULE: &str = "Response::serialize::<N> is instantiated for every N in 1..=520, 670..=700, 1020..=1030, 3005..=3020 and 64, 256, 512, 1024, 2048, 3072, 4096, 7609, 65535, 65536, 65537, 65600, 131073 (N is a const generic). For a generated response of any kind (C02 generator; every presence prefix enumerated) a capacity is drawn and a variable-length member (authData, credential id, signature, pin token, rp id, config ...) is resized so that the complete message size M satisfies N - M in {-2,-1,0,1,2}; where a kind cannot reach the drawn capacity the nearest instantiated capacity to M+offset is used. Every response is additionally serialised at N = 1, 2, 3 and occasionally at the transport sizes 64/256/1024/3072/7609. A second generator builds the largest responses the types can express (every optional member present, deprecated ones included, and every byte/text member grown to the longest length the public API accepts, found by trial; one member in eight left as generated) and serialises them at every transport size and, retuned, at the frontier of the nearest instantiated capacity. Prior buffer state rotates over empty / partially filled / completely filled with a sentinel. Oracle: expected = the complete message (the crate's own output into a 7609-byte buffer, accepted only after it passed C02's comparison with the reference model) if M <= N, else exactly [0x7F]; buffer after the call == expected for every prior state; no panic. Non-trivial: |N - M| <= 2 or a non-empty prior state; distinct by (kind, message, capacity); evaluations count (response, capacity, prior state) triples.";
+pub const RULE: &str = "Response::serialize::<N> is instantiated for every N in 1..=520, 670..=700, 1020..=1030, 3005..=3020 and 64, 256, 512, 1024, 2048, 3072, 4096, 7609, 65535, 65536, 65537, 65600, 131073 (N is a const generic). For a generated response of any kind (C02 generator; every presence prefix enumerated) a capacity is drawn and a variable-length member (authData, credential id, signature, pin token, rp id, config ...) is resized so that the complete message size M satisfies N - M in {-2,-1,0,1,2}; where a kind cannot reach the drawn capacity the nearest instantiated capacity to M+offset is used. Every response is additionally serialised at N = 1, 2, 3 and occasionally at the transport sizes 64/256/1024/3072/7609. A second generator builds the largest responses the types can express (every optional member present, deprecated ones included, and every byte/text member grown to the longest length the public API accepts, found by trial; one member in eight left as generated) and serialises them at every transport size and, retuned, at the frontier of the nearest instantiated capacity. A third generator puts each tunable member exactly on a CBOR head-width boundary (22..25, 254..257 bytes) and serialises at N - M in {-2..2} for every (kind, member, length, offset). Prior buffer state rotates over empty / partially filled / completely filled with a sentinel. Oracle: expected = the complete message (the crate's own output into a 7609-byte buffer, accepted only after it passed C02's comparison with the reference model) if M <= N, else exactly [0x7F]; buffer after the call == expected for every prior state; no panic. Non-trivial: |N - M| <= 2 or a non-empty prior state; distinct by (kind, message, capacity); evaluations count (response, capacity, prior state) triples.";
 pub const ASSUMPTIONS: &[&str] = &[
     "member encoding and key order are judged by C02 / C03; this check decides the framing only",
     "no response type of this crate exceeds about 3.1 KiB, so capacities 4096 and 7609 only ever see fitting messages",
@@ -320,13 +362,24 @@ pub fn run(ctx: &mut Ctx) {
             }
         }
         ctx.enumerate(&G_MAX, all_max.into_iter());
+        // every stretch member on every head-width boundary x every offset, several responses each
+        if kind.has_params() {
+            let nm = stretch_members(*kind).len();
+            for mi in 0..nm {
+                for li in 0..WIDTH_LENS.len() {
+                    for o in 0..5 {
+                        ctx.random(&G_WIDTH, &[idx(ki, KINDS.len()), idx(mi, nm), idx(li, WIDTH_LENS.len()), idx(o, 5)], ctx.t(6, 60), 700);
+                    }
+                }
+            }
+        }
         ctx.random(&G_MAX, &[idx(ki, KINDS.len())], ctx.t(60, 3000), 700);
     }
     ctx.exhaustive.push(format!("every response kind x every presence prefix; every instantiated capacity ({}) x offset per parameter-bearing kind", CAPS.len()));
     ctx.require(&[
         "kind:GetInfo", "kind:MakeCredential", "kind:GetAssertion", "kind:ClientPin", "kind:CredentialManagement", "kind:LargeBlobs", "kind:Reset",
         "frontier:N-M=0", "frontier:N-M=-1", "frontier:N-M=1", "frontier:N-M=-2", "frontier:N-M=2", "far:fits", "far:overflow",
-        "prior:empty", "prior:partial", "prior:full", "body:0", "body:256..1023", "capacity1-empty-map", "capacity>=65535",
+        "prior:empty", "prior:partial", "prior:full", "width:len23", "width:len24", "width:len255", "width:len256", "width:ClientPin", "width:GetAssertion", "width:MakeCredential", "width:CredentialManagement", "body:0", "body:256..1023", "capacity1-empty-map", "capacity>=65535",
         "max:all-members-at-capacity:GetAssertion", "max:all-members-at-capacity:MakeCredential", "max:all-members-at-capacity:CredentialManagement", "max:all-members-at-capacity:GetInfo",
     ]);
 }
